@@ -69,6 +69,7 @@ CHECKS = {
             {"pkg": "v2", "entries": ["VerifC10Own"], "params": {"N": 2, "M": 3, "FAMS": 1}},
             {"pkg": "v2", "entries": ["VerifC10Ops"], "params": {"OPS": 3, "N": 2, "MAXIDX": 3}},
             {"pkg": "v2", "entries": ["VerifC10Ops"], "params": {"OPS": 2, "N": 2, "MAXIDX": 3, "SPELL": 1}},
+            {"pkg": "v2", "entries": ["VerifC10ObjOps"], "params": {"OPS": 2}},
         ],
         "thorough": [
             {"pkg": "v2", "entries": ["VerifC10Own"], "params": {"N": 3, "FAMS": 1}},
@@ -76,9 +77,10 @@ CHECKS = {
             {"pkg": "v2", "entries": ["VerifC10Ops"], "params": {"OPS": 4, "N": 2, "MAXIDX": 3}},
             {"pkg": "v2", "entries": ["VerifC10Ops"], "params": {"OPS": 5, "N": 1, "MAXIDX": 1, "WRAPS": 1}},
             {"pkg": "v2", "entries": ["VerifC10Ops"], "params": {"OPS": 3, "N": 2, "MAXIDX": 3, "SPELL": 1}},
+            {"pkg": "v2", "entries": ["VerifC10ObjOps"], "params": {"OPS": 3}},
         ],
-        "covers": ["c10.own", "c10.ops.applied", "c10.ops.rejected"],
-        "outside": "more than OPS operations; indices above MAXIDX; operations on object members and nested paths in the op-sequence leg (own-output leg covers keys a/b, m~n, empty, e-acute); replace/move/copy (outside jd's subset: rejected by the reader)",
+        "covers": ["c10.own", "c10.ops.applied", "c10.ops.rejected", "c10.objops.applied", "c10.objops.notapplied"],
+        "outside": "more than OPS operations; indices above MAXIDX; index spellings other than canonical, 0-prefixed, signed; object-member operations beyond the paths /k, /m/k, /a~1b, /q/k, /m and the root (own-output leg covers keys a/b, m~n, empty, e-acute); replace/move/copy (outside jd's subset: rejected by the reader)",
     },
     "C09": {
         "quick": [
